@@ -67,6 +67,17 @@ theorem parseIntCode_eq_spec_on_canonical (bits : Nat) (signed : Bool) (v : Int)
     repeat' split
     all_goals first | rfl | contradiction
 
+/-- The parse side over the WHOLE strict lexical range, not only the canonical forms: every string
+`-?digits` (leading zeros, `-0`, any length) that denotes a value of the type is accepted by
+today's `parseInt<T>` with exactly that value. -/
+theorem parseInt_accepts_strict_lexical_range (bits : Nat) (signed : Bool) (s : Str) (v : Int)
+    (hb : bits = 8 ∨ bits = 16 ∨ bits = 32 ∨ bits = 64) (h : parseIntSpec bits signed s = some v) :
+    parseIntCode bits signed s = some v := parseIntCode_of_spec hb h
+
+/-- non-vacuity of the hypothesis beyond canonical forms: leading zeros and a negative zero -/
+example : parseIntSpec 8 false ['0', '0', '2', '5', '5'] = some 255 ∧ parseIntSpec 16 true ['-', '0'] = some 0 ∧
+    parseIntSpec 8 false ['2', '5', '6'] = none := by decide
+
 /-! integers at the type bounds (instances of the theorems above, evaluated on the model as well) -/
 example : parseIntCode 8 true (intToStr (-128)) = some (-128) := parseInt_serializeInt 8 true _ (by decide) (by decide)
 example : parseIntCode 8 true (intToStr 127) = some 127 := parseInt_serializeInt 8 true _ (by decide) (by decide)
@@ -118,6 +129,13 @@ theorem b64_decode_encode (bs : Bytes) : b64decodeCode (b64encode bs) = some bs 
 
 /-- … and the library's encoding is also accepted, with the same result, by a strict RFC 4648 decoder. -/
 theorem b64_strict_decode_encode (bs : Bytes) : b64decodeSpec (b64encode bs) = some bs := b64spec_encode bs
+
+/-- The parse side over the whole strict lexical range: every text a strict RFC 4648 decoder
+accepts is decoded by the library's lenient decoder to the same bytes. -/
+theorem b64_accepts_strict_lexical_range (s : Str) (bs : Bytes) (h : b64decodeSpec s = some bs) :
+    b64decodeCode s = some bs := by
+  unfold b64decodeCode
+  rw [b64go_of_spec h]
 
 /-- Today's `parseBase64` never reports an error: whatever the text, a value comes back
 (measured: Qt's default is `IgnoreBase64DecodingErrors`; `parseBase64`'s `nullopt` branch is dead). -/
@@ -209,6 +227,15 @@ theorem dt_print_in_strict_profile (d : Dt) (hv : ValidDt d) : dtParseSpec (dtTo
       List.nil_append, dtParseSpec, List.all_cons, List.all_nil, q1, q2, q3, q4, q5, q6, q7, q8, q9, q10, q11, q12,
       q13, q14, q15, q16, q17, Bool.and_self, if_true, e1, e2, e3, e4, e5, e6, e7, hyr]
     rw [if_pos hv']
+
+/-- The parse side over the whole strict XEP-0082 UTC profile: EVERY string of the form
+`CCYY-MM-DDThh:mm:ss[.sss]Z` that denotes a valid date-time (so also `.000`, which the library never
+prints) is read by today's `datetimeFromString` as exactly that date-time. -/
+theorem dt_accepts_strict_profile (s : Str) (d : Dt) (h : dtParseSpec s = some d) : dtParseCode s = some d :=
+  dtParseCode_of_spec h
+
+example : dtParseSpec "2024-02-29T23:59:59.000Z".toList = some ⟨2024, 2, 29, 23, 59, 59, 0⟩ ∧
+    dtParseSpec "2023-02-29T23:59:59Z".toList = none := by decide
 
 /-- The boundary of the lexical range: a date-time whose year has more than four digits (or is
 not positive) is printed by `datetimeToString` as the EMPTY string, which does not parse — such
